@@ -111,7 +111,7 @@ def make_specs(ctx, purpose='c09'):
         H, P = rng.choice(sizes_small[2:] + sizes_small[4:])
         add(H, P, rng.choice(SUBSETS), AB=rng.random() < .5, shear=rng.random() < .4, conformity=rng.random() < .5,
             ranks=rng.random() < .5, velbias=rng.random() < .6, rsd=rng.random() < .6, origin=rng.random() < .35,
-            ties=rng.random() < .15, Nthread=rng.choice([1, 2, 3, 4, 7, 16]))
+            ties=rng.random() < .15, Nthread=rng.choice([1, 2, 3, 4, 7, 16]), punsorted=rng.random() < .3)
     for (H, P) in sizes_big:
         for subset in (TRACERS, ('ELG',)) if quick else SUBSETS:
             add(H, P, subset, AB=True, shear=True, conformity=True, ranks=True, velbias=True, rsd=True,
@@ -181,6 +181,11 @@ def build_case(spec):
     if spec['shear']:
         hd['hshear'] = rng.uniform(-1, 1, H)
     pinds = np.sort(rng.integers(0, H, P)).astype(np.int64) if H > 0 else np.zeros(0, dtype=np.int64)
+    if spec.get('punsorted') and P > 1:
+        # staging sorts the hosts by id but leaves the particles in file (slab) order: the host index of the particle table is
+        # then a concatenation of ascending runs, not ascending as a whole
+        cut = sorted(int(x) for x in rng.integers(1, P, 2))
+        pinds = np.concatenate([pinds[cut[1]:], pinds[cut[0]:cut[1]], pinds[:cut[0]]]).astype(np.int64)
     if H == 0:
         P = 0
     pd = dict(ppos=hd['hpos'][pinds] + rng.uniform(-1, 1, (P, 3)), pvel=hd['hvel'][pinds] + rng.normal(0, 200, (P, 3)),
